@@ -93,7 +93,7 @@ func RunC04(tier string) int {
 		"dag.Walker driven in-process inside testing/synctest bubbles under the race detector over seeded graph families (chains, ladders, fans, independent roots, random DAGs) x selections x failing subsets x fail-fast x callback latencies x registration delays x external cancellation x GOMAXPROCS 1/2/16; "+
 			"plus the real binary after every sampled single (thorough: also double) cache read fault - entry missing or unreadable, for blobs, trees and target results - with the workspace outputs wiped (and, in half of the cases, the commands of some targets changed so that misses depend on faulted hits); plus wide builds (2-6 x num_workers ready targets, worker pool queue full) interrupted by SIGINT/SIGTERM raised inside the process after the K-th command spawn / task start; verdicts: synctest deadlock report, quiescent hang of the process (two CPU samples + goroutine dump), runtime fatal error, map-access race report on walker state, selected node left unresolved; non-trivial = case with failures, cancellation or a registration delay; distinct = graph shape + observed start order")
 	walkerPart(run, tier, "C04")
-	st, err := e1.Prepare(run, false)
+	st, err := e1.Prepare(run, true)
 	if err != nil {
 		run.Infra(err.Error())
 		return run.Finish()
@@ -101,6 +101,8 @@ func RunC04(tier string) int {
 	defer st.Cleanup()
 	e1.RestoreFaultPart(run, st, tierN(tier, 16, 80), tierN(tier, 16, 0), map[string]bool{"crash": true, "hang": true}, tier == "thorough")
 	e1.InterruptWidePart(run, st, tierN(tier, 24, 300))
+	// whole builds under the race detector
+	RaceBuildPart(run, st, tierN(tier, 10, 120))
 	// every failure pattern and failure mode (exit status, timeout, missing output, failing check,
 	// keep-going / fail-fast): the build returns and the process exits - judged here on hang and
 	// crash only, C05 judges what ran
